@@ -209,7 +209,11 @@ TYPE_SEQS = [
     (['vector', '<', 'Tag', '>'], 'vec_Tag'),
     (['vector', '<', 'MultiTag', '>'], 'vec_MultiTag'),
     (['vector', '<', 'Property', '>'], 'vec_Property'),
+    (['vector', '<', 'Feature', '>'], 'vec_Feature'),
     (['queue', '<', 'SourceCont', '>'], 'queue_SourceCont'),
+    (['shared_ptr', '<', 'IFeature', '>'], 'FeatureP'),
+    (['shared_ptr', '<', 'FeatureHDF5', '>'], 'FeatureP'),
+    (['shared_ptr', '<', 'IDataArray', '>'], 'DataArrayP'),
     (['list', '<', 'tuple', '<', 'Section', ',', 'size_t', '>>'], 'list_SectionCont'),
     (['list', '<', 'tuple', '<', 'Section', ',', 'size_t', '>', '>'], 'list_SectionCont'),
     (['tuple', '<', 'Section', ',', 'size_t', '>'], 'SectionCont'),
@@ -224,10 +228,10 @@ TYPE_SEQS = [
 OPT_TYPES = {'opt_ndsize': 'ndsize', 'opt_pair': 'pair', 'opt_double': 'double', 'opt_string': 'string', 'opt_H5Group': 'H5Group'}
 OPT_PAYLOAD_CLASS = {'opt_H5Group': 'H5Group'}
 VEC_TYPES = {'vec_double', 'vec_ndsize', 'vec_string', 'vec_opt_pair', 'vec_pair', 'vec_dpair',
-             'vec_Dimension', 'vec_NDSize', 'vec_int', 'vec_DataView', 'vec_nstr', 'vec_DataArray', 'vec_Variant', 'vec_Source', 'vec_Section', 'vec_Column', 'vec_Block', 'vec_Tag', 'vec_MultiTag', 'vec_Property'}
+             'vec_Dimension', 'vec_NDSize', 'vec_int', 'vec_DataView', 'vec_nstr', 'vec_DataArray', 'vec_Variant', 'vec_Source', 'vec_Section', 'vec_Column', 'vec_Block', 'vec_Tag', 'vec_MultiTag', 'vec_Property', 'vec_Feature'}
 STRUCT_TYPES = set(OPT_TYPES) | VEC_TYPES | {'pair_ndsize', 'pair_double', 'NDSize', 'nstring'}
 
-QUALIFIERS = {'std', 'boost', 'nix', 'util', 'base', 'check', 'hdf5', 'h5x'}
+QUALIFIERS = {'std', 'boost', 'nix', 'util', 'base', 'check', 'hdf5', 'h5x', 'valid'}
 
 class Ctx:
     """per-unit rewrite context"""
@@ -705,7 +709,7 @@ def r_rangefor(ctx, toks):
 
 VEC_ELEM = {'vec_double': 'double', 'vec_ndsize': 'ndsize_t', 'vec_opt_pair': 'opt_pair', 'vec_pair': 'pair_ndsize',
             'vec_dpair': 'pair_double', 'vec_int': 'int', 'vec_NDSize': 'NDSize', 'vec_Dimension': 'Dimension',
-            'vec_nstr': 'nstring', 'vec_DataArray': 'DataArray', 'vec_Source': 'Source', 'vec_Section': 'Section', 'vec_Block': 'Block', 'vec_Tag': 'Tag', 'vec_MultiTag': 'MultiTag', 'vec_Property': 'Property', 'vec_Variant': 'Variant', 'vec_DataView': 'DataView', 'vec_string': 'nstring'}
+            'vec_nstr': 'nstring', 'vec_DataArray': 'DataArray', 'vec_Source': 'Source', 'vec_Section': 'Section', 'vec_Block': 'Block', 'vec_Tag': 'Tag', 'vec_MultiTag': 'MultiTag', 'vec_Property': 'Property', 'vec_Feature': 'Feature', 'vec_Variant': 'Variant', 'vec_DataView': 'DataView', 'vec_string': 'nstring'}
 
 def r_pair_ctor(ctx, toks):
     """pair_ndsize(a, b) -> mk_pair_ndsize(a, b)"""
